@@ -11,9 +11,11 @@ type Locker = rsync.Locker
 // use it to learn "this call would wait", e.g. Read on an empty queue).
 type WouldBlock struct{ Op string }
 
+//go:norace
 func (w WouldBlock) Error() string { return "vs: " + w.Op + " would block outside the scheduler" }
 
 // TryBlocking runs f; it reports blocked=true if f hit an operation that would block.
+//go:norace
 func TryBlocking(f func()) (blocked bool) {
 	defer func() {
 		if r := recover(); r != nil {
@@ -31,8 +33,10 @@ func TryBlocking(f func()) (blocked bool) {
 // Mutex: state kept in the shim. Outside the scheduler (Active=false) it degrades to a flag (sequential harnesses).
 type Mutex struct {
 	locked bool
+	hb     rsync.Mutex // race mode: carries the happens-before edges of Lock/Unlock (see race.go)
 }
 
+//go:norace
 func (m *Mutex) Lock() {
 	if !S.Active {
 		if m.locked {
@@ -46,17 +50,21 @@ func (m *Mutex) Lock() {
 	}
 	blockOp("Mutex.Lock", func() bool { return !m.locked })
 	m.locked = true
+	hb(&m.hb)
 }
 
+//go:norace
 func (m *Mutex) TryLock() bool {
 	Point()
 	if m.locked {
 		return false
 	}
 	m.locked = true
+	hb(&m.hb)
 	return true
 }
 
+//go:norace
 func (m *Mutex) Unlock() {
 	if !S.Active {
 		m.locked = false
@@ -69,14 +77,18 @@ func (m *Mutex) Unlock() {
 	if !m.locked {
 		panic("sync: unlock of unlocked mutex")
 	}
+	hb(&m.hb)
 	m.locked = false
 }
 
 type RWMutex struct {
 	w bool
 	r int
+	// race mode: hw carries writer-unlock -> next lock of either kind, hr carries reader-unlock -> next writer lock
+	hw, hr rsync.Mutex
 }
 
+//go:norace
 func (m *RWMutex) Lock() {
 	if !S.Active {
 		m.w = true
@@ -87,7 +99,10 @@ func (m *RWMutex) Lock() {
 	}
 	blockOp("RWMutex.Lock", func() bool { return !m.w && m.r == 0 })
 	m.w = true
+	hb(&m.hw)
+	hb(&m.hr)
 }
+//go:norace
 func (m *RWMutex) Unlock() {
 	if !S.Active {
 		m.w = false
@@ -97,8 +112,10 @@ func (m *RWMutex) Unlock() {
 		return
 	}
 	Point()
+	hb(&m.hw)
 	m.w = false
 }
+//go:norace
 func (m *RWMutex) RLock() {
 	if !S.Active {
 		m.r++
@@ -109,7 +126,9 @@ func (m *RWMutex) RLock() {
 	}
 	blockOp("RWMutex.RLock", func() bool { return !m.w })
 	m.r++
+	hb(&m.hw)
 }
+//go:norace
 func (m *RWMutex) RUnlock() {
 	if !S.Active {
 		m.r--
@@ -119,6 +138,7 @@ func (m *RWMutex) RUnlock() {
 		return
 	}
 	Point()
+	hb(&m.hr)
 	m.r--
 }
 
@@ -127,8 +147,10 @@ type Cond struct {
 	waiters []*bool
 }
 
+//go:norace
 func NewCond(l Locker) *Cond { return &Cond{L: l} }
 
+//go:norace
 func (c *Cond) Wait() {
 	if !S.Active {
 		panic(WouldBlock{"Cond.Wait"})
@@ -141,8 +163,10 @@ func (c *Cond) Wait() {
 	c.waiters = append(c.waiters, sig)
 	switch l := c.L.(type) { // release without a scheduling point: Wait's unlock+park is atomic
 	case *Mutex:
+		hb(&l.hb)
 		l.locked = false
 	case *RWMutex:
+		hb(&l.hw)
 		l.w = false
 	default:
 		panic("vs: Cond with foreign Locker")
@@ -151,6 +175,7 @@ func (c *Cond) Wait() {
 	c.L.Lock()
 }
 
+//go:norace
 func (c *Cond) Signal() {
 	if !S.Active || S.killed {
 		return
@@ -162,6 +187,7 @@ func (c *Cond) Signal() {
 	}
 }
 
+//go:norace
 func (c *Cond) Broadcast() {
 	if !S.Active || S.killed {
 		return
@@ -173,8 +199,12 @@ func (c *Cond) Broadcast() {
 	c.waiters = nil
 }
 
-type WaitGroup struct{ n int }
+type WaitGroup struct {
+	n  int
+	hb rsync.Mutex
+}
 
+//go:norace
 func (w *WaitGroup) Add(d int) {
 	if !S.Active {
 		w.n += d
@@ -184,12 +214,15 @@ func (w *WaitGroup) Add(d int) {
 		return
 	}
 	Point()
+	hb(&w.hb)
 	w.n += d
 	if w.n < 0 {
 		panic("sync: negative WaitGroup counter")
 	}
 }
+//go:norace
 func (w *WaitGroup) Done() { w.Add(-1) }
+//go:norace
 func (w *WaitGroup) Wait() {
 	if !S.Active {
 		if w.n != 0 {
@@ -201,14 +234,17 @@ func (w *WaitGroup) Wait() {
 		runtime.Goexit()
 	}
 	blockOp("WaitGroup.Wait", func() bool { return w.n == 0 })
+	hb(&w.hb)
 }
 
 // Once: the function runs under the once's internal lock, like the real one (a second caller waits for completion).
 type Once struct {
 	done    bool
 	running bool
+	hb      rsync.Mutex
 }
 
+//go:norace
 func (o *Once) Do(f func()) {
 	if !S.Active {
 		if !o.done {
@@ -222,10 +258,11 @@ func (o *Once) Do(f func()) {
 	}
 	blockOp("Once.Do", func() bool { return !o.running })
 	if o.done {
+		hb(&o.hb)
 		return
 	}
 	o.running = true
-	defer func() { o.done = true; o.running = false }()
+	defer func() { hb(&o.hb); o.done = true; o.running = false }()
 	f()
 }
 
@@ -234,10 +271,12 @@ type Pool struct {
 	New   func() any
 	items []any
 	epoch int64
+	hb    rsync.Mutex
 }
 
 // scope drops what an earlier execution left in the pool (package-level pools outlive an execution; a thread killed at
 // the end of an execution may have left an object in any state)
+//go:norace
 func (p *Pool) scope() {
 	if p.epoch != execEpoch {
 		p.items, p.epoch = nil, execEpoch
@@ -249,11 +288,13 @@ func (p *Pool) scope() {
 // object - the shim pool is LIFO - before the first one has finished with it).
 var PoolPoints bool
 
+//go:norace
 func (p *Pool) Get() any {
 	if PoolPoints && S.Active {
 		Point()
 	}
 	p.scope()
+	hb(&p.hb)
 	if n := len(p.items); n > 0 {
 		x := p.items[n-1]
 		p.items = p.items[:n-1]
@@ -264,8 +305,10 @@ func (p *Pool) Get() any {
 	}
 	return nil
 }
+//go:norace
 func (p *Pool) Put(x any) {
 	p.scope()
+	hb(&p.hb)
 	p.items = append(p.items, x)
 	if PoolPoints && S.Active {
 		Point()
@@ -275,9 +318,15 @@ func (p *Pool) Put(x any) {
 // Map wraps the real sync.Map; every operation is a scheduling point.
 type Map struct{ m rsync.Map }
 
+//go:norace
 func (m *Map) Load(k any) (any, bool)           { Point(); return m.m.Load(k) }
+//go:norace
 func (m *Map) Store(k, v any)                   { Point(); m.m.Store(k, v) }
+//go:norace
 func (m *Map) LoadOrStore(k, v any) (any, bool) { Point(); return m.m.LoadOrStore(k, v) }
+//go:norace
 func (m *Map) LoadAndDelete(k any) (any, bool)  { Point(); return m.m.LoadAndDelete(k) }
+//go:norace
 func (m *Map) Delete(k any)                     { Point(); m.m.Delete(k) }
+//go:norace
 func (m *Map) Range(f func(k, v any) bool)      { Point(); m.m.Range(f) }
